@@ -163,6 +163,7 @@ type pexec struct {
 	eofSeen bool // wrap: io.EOF was returned
 
 	fills, shrinks int
+	callerBuf      []byte // the last slice with spare capacity handed to Reset (a caller may refill and reuse it)
 	clk            *taskClock
 	noBudget       bool
 }
@@ -1108,7 +1109,17 @@ func (x *pexec) doReset(op *Op) string {
 	}
 	var data []byte
 	src := x.take(op.N)
-	if op.N > 0 {
+	if op.X == 5 {
+		// an empty but non-nil slice (with some capacity)
+		src = src[:0]
+		data = make([]byte, 0, 16)
+	} else if op.X == 6 && len(src) > 0 && len(src) <= x.bc.BufferSize && cap(x.callerBuf) >= len(src)+7 {
+		// the caller refills the buffer it handed over last time and hands
+		// the same array over again (same address, often the same length)
+		data = x.callerBuf[:len(src)]
+		copy(data, src)
+		x.probe("reset_same_caller_buffer")
+	} else if op.N > 0 {
 		switch op.X {
 		case 2:
 			data = make([]byte, len(src), len(src)+7)
@@ -1124,6 +1135,9 @@ func (x *pexec) doReset(op *Op) string {
 		if len(src) == 0 {
 			data = nil
 		}
+	}
+	if cap(data) >= len(data)+7 && len(data) > 0 {
+		x.callerBuf = data[:0:cap(data)]
 	}
 	var err error
 	pn, hang := x.call(x.budget(len(data)), func() {
